@@ -43,14 +43,16 @@ Theorem C09_walk_unsafe : forall ref names ga w,
   forallb safe_nameb names = false -> do_walk ref names ga w = (Ok (inl (eno linux_EINVAL)), w).
 Proof. exact do_walk_unsafe. Qed.
 
-(** only through directories: before EVERY component (the first included) the walk reference's
-    recorded type is tested; if it is not a directory the component is not walked -- no Walk or
+(** only through directories, PER STEP of the component loop (not yet lifted to "every Walk / WalkGetAttr
+    call in the log of every history has a receiver recorded as a directory": that needs a log invariant
+    relating handles to fidRef modes; the differential checks it on every run, [c09_step] in Server/Cases.v):
+    before EVERY component (the first included) the walk reference's recorded type is tested; if it is not a directory the component is not walked -- no Walk or
     WalkGetAttr call is made on it, the request fails with EINVAL (all states, all tapes) *)
-Theorem C09_dirs_only : forall n rest walk qids last w,
+Theorem C09_dirs_only_step : forall n rest walk qids last w,
   is_dir (fr_mode (get_ref (w_st w) walk)) = false ->
   walk_loop (n :: rest) walk qids last w = (dec_ref_ walk ;; fail linux_EINVAL)%m w.
 Proof. exact walk_needs_dir. Qed.
-Print Assumptions C09_dirs_only.
+Print Assumptions C09_dirs_only_step.
 (** ... and the type recorded for the fidRef of each walked component is the one the backend reported
     for that component (so "directory" means: reported ModeDirectory by WalkGetAttr / GetAttr) *)
 Theorem C09_recorded_type_is_reported : forall n rest walk qids last w,
@@ -93,7 +95,7 @@ Print Assumptions C09_attach_components.
     stands for, and every string field of a T-message that is a path component is checked *)
 Theorem C09_source_fields_checked : all_fields_checked = true.
 Proof. exact HandlerGen_all_name_fields_checked. Qed.
-Theorem C09_source_matches_model : handler_traces = model_traces.
+Theorem C09_source_matches_model : handler_traces_alpha = model_traces.
 Proof. exact HandlerGen_matches_model. Qed.
 Print Assumptions C09_source_matches_model.
 
